@@ -130,6 +130,10 @@ struct Plan {
     /// client does not know yet.
     spare_join_at: Option<usize>,
     spare_event: bool,
+    /// The spare node joins unreachable (connection attempts hang): while the cluster
+    /// worker waits for its pools, tablet feedback piles up in the channel and is applied
+    /// as ONE batch later; during that time the tablets of requested tokens keep moving.
+    spare_blackhole: bool,
     /// Oracle id prefix: "c15" or, when run as the tablet part of C12, "c12t".
     prefix: &'static str,
 }
@@ -187,6 +191,7 @@ pub fn run(req: &RunRequest) -> Value {
             remove_node: tape::chance("c15:remove_node", 1, 3),
             spare_join_at: None,
             spare_event: tape::chance("c15:spare_event", 1, 2),
+            spare_blackhole: tape::chance("c15:spare_blackhole", 1, 2),
             prefix: if req_is_c12t { "c12t" } else { "c15" },
         };
         let mut plan = plan;
@@ -287,6 +292,7 @@ async fn main(plan: Plan) -> Outcome {
     let mut routed_checked = 0u64;
     let mut unsynced = 0u64;
     let mut spare_known_to_client = false;
+    let mut worker_busy_until = 0u64;
     for i in 0..plan.requests {
         if plan.spare_join_at == Some(i) {
             let mut w = world::world();
@@ -294,7 +300,12 @@ async fn main(plan: Plan) -> Outcome {
             w.cluster.nodes[n].in_ring = true;
             w.cluster.nodes[n].up = true;
             SPARE_JOINED.store(true, std::sync::atomic::Ordering::Relaxed);
-            if plan.spare_event {
+            if plan.spare_blackhole {
+                w.cluster.nodes[n].partitioned = true;
+                w.probe("spare_joined_unreachable");
+                worker_busy_until = w.now() + 6 * SEC;
+            }
+            if plan.spare_event || plan.spare_blackhole {
                 let ip = w.cluster.nodes[n].ip;
                 w.broadcast_event("TOPOLOGY_CHANGE", crate::wire::body_event_topology("NEW_NODE", ip, 9042));
             }
@@ -352,6 +363,20 @@ async fn main(plan: Plan) -> Outcome {
         }
         let m = (i as u64 + 1) * 16;
         let key = keys[tape::choose("c15:which_key", keys.len() as u64) as usize];
+        // While the worker is (probably) held up, the tablet of the requested token moves
+        // again and again: several descriptions of one range end up in one batch, in the
+        // order they were learnt - the last one must win.
+        if world::now_ns() < worker_busy_until && tape::chance("c15:hot_move", 1, 2) {
+            let token = model::murmur3_token(&key.to_be_bytes());
+            let mut w = world::world();
+            let mut s = w.script.take().unwrap();
+            let sc = s.as_any().downcast_mut::<C15Script>().unwrap();
+            if let Some(t) = sc.layout.iter_mut().find(|t| token > t.first_excl && token <= t.last) {
+                t.replicas = draw_replicas(&plan);
+            }
+            w.script = Some(s);
+            w.probe("tablet_moved_while_worker_busy");
+        }
         // Routing is judged for requests submitted while the client's published state
         // already holds, for this token, exactly the tablet the model says it has learnt
         // (feedback is applied asynchronously by the cluster worker; that it is applied
